@@ -108,7 +108,7 @@ def equal_formula(v, x):
     raise EngineError("crosscheck: cannot compare with %r" % (type(x),))
 
 
-def _check(hyps, extra, ms=4000):
+def _check(hyps, extra, ms=2500):
     s = z3.Solver()
     s.set("timeout", ms)
     s.add(*hyps)
@@ -129,6 +129,10 @@ def crosscheck_target(verifier, target, examples, func, limit=24):
         stepk = len(exs) / float(limit)
         exs = [exs[int(i * stepk)] for i in range(limit)]
     for kwargs in exs:
+        # a function whose result the model never determines (abstract callee contracts) or that lies outside the concrete
+        # subset tells nothing more after a few inputs: stop early
+        if out["agrees"] == 0 and out["evaluated"] + out["skipped"] >= 5 and not out["contradictions"]:
+            break
         try:
             native_exc, native = None, None
             try:
